@@ -181,6 +181,9 @@ def js_str(rng, v):
             out.append("\\n")
         elif ch == "\t" and rng.random() < 0.5:
             out.append("\\t")
+        elif ch in "{}<>&" and rng.random() < 0.4:
+            # the characters the rules look for, present in the VALUE only through an escape sequence
+            out.append(rng.choice(["\\x%02X", "\\u%04x", "\\u{%x}"]) % ord(ch))
         elif ch.isalnum() and ord(ch) < 128 and rng.random() < 0.08:
             out.append("\\x%02x" % ord(ch))
         elif rng.random() < 0.05:
@@ -1206,6 +1209,12 @@ def c13(ctx):
         body = eol.join(rng.choice(G_FLAGGED).replace("@", rng.choice(names)) for _ in range(rng.randint(2, 4)))
         progs.append({"src": head + "// deno-lint-ignore" + (" " + word if word else "") + eol + rng.choice(["", "  "]) + body + eol,
                       "media": rng.choice(["ts", "js", "mjs", "tsx"]), "rule": rule, "sites": None, "origin": "directive-above-first-statement"})
+        # the directive as a TRAILING comment of the first line (it covers the NEXT line, never its own)
+        lines3 = [rng.choice(G_FLAGGED).replace("@", rng.choice(names)) for _ in range(rng.randint(2, 4))]
+        k3 = rng.randrange(len(lines3) - 1) if rng.random() < 0.5 else 0
+        lines3[k3] += " // deno-lint-ignore" + (" " + word if word else "")
+        progs.append({"src": rng.choice(["", "", "#!/usr/bin/env node\n"]) + eol.join(lines3) + eol, "media": rng.choice(["ts", "js", "mjs", "tsx"]), "rule": rule,
+                      "sites": None, "origin": "directive-trailing-on-a-line"})
     results = lib.run_vh("lint", [{"src": p["src"], "media": p["media"], "rules": [p["rule"]]} for p in progs], per_case_timeout=5)
     run_builds(progs)
     # ---- correspondence: builders
